@@ -275,6 +275,14 @@ inline std::vector<std::vector<NetSpec>> netMenu(const Spec &s, int level) {
   return out;
 }
 
+// Domain of the circuit-level properties: a movable cell that declares a row polarity starts in one of the four unturned
+// orientations (turned orientations are only defined for cells without polarity).
+inline bool inDomain(const Spec &s) {
+  for (auto &c : s.cells)
+    if (!c.fixed && c.polarity != 0 && turned(c.orient)) return false;
+  return true;
+}
+
 // Primer calls for the worker processes (see verif.hpp): legalizations / detailed placements of circuits with restrictive
 // polarities, many cells, a fixed cell in front, a movable macro.
 inline std::vector<std::function<void()>> legalizationPrimers() {
